@@ -102,6 +102,14 @@ type ChanV struct {
 	buf    []Value
 	capT   *Term
 	closed bool
+	// scheduler mode (sched.go)
+	items       []chanItem
+	capN        int
+	capKnown    bool
+	recvWaiting int
+	sendCount   int
+	recvVCs     []vclock
+	closeVC     vclock
 }
 
 type RangeIter struct {
